@@ -842,6 +842,16 @@ def check_phase_sets(rep, rule, rule_pair=None, rule_order=None, rule_core_env=N
     ok = len(rets) == 1 and isinstance(it.try_eval(rets[0].value), Opaque) and it.try_eval(rets[0].value).tag == 'chain:request'
     rep.check(rule_core_env, fkey(fi, 'returns request chain'), ok, 'the request chain is what is returned' if ok else
               'make_middleware_chain does not return the request-phase chain', fi.mod, rets[0] if rets else fi.node)
+    # which sources' names reach which other phase (read off the availability sets just computed): the pairs of name spaces
+    # that meet in one generated scope -- see check_conflict_namespaces
+    plain = uni.neg(uni['NEXT']) & uni.neg(uni['CTX'])
+    fw = []
+    for src, atom in sorted(list(provs_atom.items()) + [('preprovided', 'PRE')]):
+        for dst in sorted(calls):
+            av = calls[dst]['avail']
+            if src != dst and isinstance(av, int) and (uni[atom] & plain & uni.neg(av)) == 0:
+                fw.append([src, dst])
+    rep.extra['forwarded_phases'] = fw
     return calls
 
 
@@ -1596,6 +1606,292 @@ def _value_sources(f, cfg, ret, v):
             if set(cfg.nodes_of(ret)) & cfg.reach(cfg.nodes_of(s), avoid=avoid):
                 out.append((norm(s.value), cfg.conds_at_stmt(s)))
     return out or [(v, cfg.conds_at_stmt(ret))]
+
+
+# ---------------------------------------------------------------------------------------------
+# R02.e: the conflict check and the chain builder agree on which name spaces meet
+# ---------------------------------------------------------------------------------------------
+
+def conflict_namespaces(repo):
+    """The name spaces of check_middlewares: for every provider map instance (a map of name -> list of providers created in
+    the function; created inside a loop over a constant table, one instance per row) the set of sources recorded in it:
+    ``provides`` attributes of the middlewares and 'ARGS' (the items of the source-map parameter).
+    -> (function, [(label, set of sources or None when the instance is the only one)])"""
+    core = repo.mod(CORE)
+    cm = core.func('check_middlewares')
+    cps = cm.params()
+    if not cps:
+        raise AnalysisError('check_middlewares: no parameters')
+    par = {}
+    for p in ast.walk(cm.node):
+        for ch in ast.iter_child_nodes(p):
+            par[ch] = p
+
+    def unwrap(e):
+        while isinstance(e, ast.Call) and call_name(e) in ('list', 'tuple', 'iter', 'sorted', 'set', 'frozenset') and len(e.args) == 1:
+            e = e.args[0]
+        return e
+
+    def enclosing_loops(n):
+        out = []
+        cur = par.get(n)
+        while cur is not None and cur is not cm.node:
+            if isinstance(cur, (ast.For, ast.While)):
+                out.append(cur)
+            elif isinstance(cur, (ast.FunctionDef, ast.Lambda, ast.ListComp, ast.SetComp, ast.DictComp, ast.GeneratorExp)):
+                raise AnalysisError('check_middlewares: provider map handled inside a nested scope')
+            cur = par.get(cur)
+        return out
+
+    def add_calls(name):
+        out = []
+        for c in walk_body(cm.node):
+            if isinstance(c, ast.Call) and isinstance(c.func, ast.Attribute) and c.func.attr in ('append', 'add') and len(c.args) == 1:
+                recv = c.func.value
+                if isinstance(recv, ast.Subscript) and norm(recv.value) == name:
+                    out.append((c, norm(recv.slice)))
+                elif isinstance(recv, ast.Call) and call_tail(recv) == 'setdefault' and isinstance(recv.func, ast.Attribute) and \
+                        norm(recv.func.value) == name and recv.args:
+                    out.append((c, norm(recv.args[0])))
+        return out
+    creations = [s for s in stmts_of(cm.node) if isinstance(s, ast.Assign) and len(s.targets) == 1 and isinstance(s.targets[0], ast.Name) and
+                 s.targets[0].id not in cps and
+                 ((isinstance(s.value, ast.Call) and call_name(s.value) in ('defaultdict', 'dict', 'collections.defaultdict', 'OrderedDict') and
+                   not any(isinstance(a, ast.Name) and a.id in cps for a in s.value.args)) or
+                  (isinstance(s.value, ast.Dict) and not s.value.keys)) and add_calls(s.targets[0].id)]
+    if not creations:
+        raise AnalysisError('check_middlewares: provider map not identified')
+    names = [s.targets[0].id for s in creations]
+    if len(set(names)) != len(names):
+        raise AnalysisError('check_middlewares: a provider map is created in more than one place')
+    if len(creations) == 1 and not enclosing_loops(creations[0]):
+        return cm, [(names[0], None)]
+    # several instances: attribute every recording to its source
+
+    def const_rows(loop):
+        vals = repo.try_fold(loop.iter, cm.mod) if isinstance(loop, ast.For) else None
+        return list(vals) if isinstance(vals, (tuple, list)) and vals and isinstance(loop.target, ast.Name) and \
+            all(isinstance(v, str) for v in vals) else None
+
+    def mw_loop(loop):
+        return isinstance(loop, ast.For) and isinstance(loop.target, ast.Name) and norm(unwrap(loop.iter)) == cps[0]
+
+    def is_args_items(e):
+        e = unwrap(e)
+        if not (isinstance(e, ast.Call) and isinstance(e.func, ast.Attribute) and e.func.attr == 'items' and not e.args):
+            return False
+        b = e.func.value
+        if isinstance(b, ast.BoolOp) and isinstance(b.op, ast.Or):
+            b = b.values[0]
+        return len(cps) > 1 and isinstance(b, ast.Name) and b.id == cps[1]
+
+    def sources(call, keyvar, fixed):
+        """Sources whose names the recording ``P[keyvar].append(..)`` enters, with the constant-table variables of ``fixed``
+        (name -> value) held at one row; the other constant loops around it range over their whole table."""
+        loops = enclosing_loops(call)
+        own = [l for l in loops if isinstance(l, ast.For) and isinstance(l.target, ast.Name) and l.target.id == keyvar]
+        if len(own) != 1:
+            raise AnalysisError('check_middlewares: cannot tell what names a recording into the provider map ranges over')
+        it_ = unwrap(own[0].iter)
+        outer = loops[loops.index(own[0]) + 1:]
+        env = {}
+        for l in outer:
+            rows = const_rows(l)
+            if rows is not None:
+                env[l.target.id] = [fixed[l.target.id]] if l.target.id in fixed else rows
+        mws = [l.target.id for l in outer if mw_loop(l)]
+        if isinstance(it_, ast.Attribute) and isinstance(it_.value, ast.Name) and it_.value.id in mws:
+            return {it_.attr}
+        if isinstance(it_, ast.Call) and call_name(it_) == 'getattr' and len(it_.args) == 2 and isinstance(it_.args[0], ast.Name) and \
+                it_.args[0].id in mws:
+            k = it_.args[1]
+            if isinstance(k, ast.Name) and k.id in env:
+                return set(env[k.id])
+            v = repo.try_fold(k, cm.mod)
+            if isinstance(v, str):
+                return {v}
+        if isinstance(it_, ast.Name):
+            pairs = [l for l in outer if isinstance(l, ast.For) and isinstance(l.target, ast.Tuple) and len(l.target.elts) == 2 and
+                     norm(l.target.elts[1]) == it_.id and is_args_items(l.iter)]
+            if pairs:
+                return {'ARGS'}
+        raise AnalysisError('check_middlewares: cannot tell what names a recording into the provider map ranges over (%s)' % norm(it_)[:60])
+    out = []
+    for s in creations:
+        name = s.targets[0].id
+        cl = enclosing_loops(s)
+        if any(const_rows(l) is None for l in cl):
+            raise AnalysisError('check_middlewares: provider map %s is created inside a loop that does not walk a constant table' % name)
+        adds = add_calls(name)
+        for c, kv in adds:
+            el = enclosing_loops(c)
+            if any(not any(l is x for x in el) for l in cl):
+                raise AnalysisError('check_middlewares: provider map %s is filled outside the loop that creates it' % name)
+        if not cl:
+            srcs = set()
+            for c, kv in adds:
+                srcs |= sources(c, kv, {})
+            out.append((name, srcs))
+            continue
+        if len(cl) != 1:
+            raise AnalysisError('check_middlewares: provider map %s is created inside nested table loops' % name)
+        for row in const_rows(cl[0]):
+            srcs = set()
+            for c, kv in adds:
+                srcs |= sources(c, kv, {cl[0].target.id: row})
+            out.append(('%s[%s=%r]' % (name, cl[0].target.id, row), srcs))
+    return cm, out
+
+
+def check_conflict_namespaces(rep, rule):
+    """A name has one source only if no two sources that can meet in one generated scope offer it.  Which sources meet is
+    decided by the chain builder (a phase's availability set contains the provides of another phase / the preprovided names:
+    read off make_middleware_chain by check_phase_sets); which sources are compared with each other is decided by the conflict
+    check (the provider map instances of check_middlewares).  Every pair of the first kind must share an instance."""
+    fw = rep.extra.get('forwarded_phases')
+    if fw is None:
+        raise AnalysisError('availability sets of make_middleware_chain not available (check_phase_sets did not complete)')
+    cm, spaces = conflict_namespaces(rep.repo)
+    label = {'preprovided': 'ARGS'}
+    label.update(PHASES)
+    for src, dst in fw:
+        a, b = label.get(src), label.get(dst)
+        if a is None or b is None:
+            continue
+        ok = any(srcs is None or (a in srcs and b in srcs) for nm, srcs in spaces)
+        what = 'the url / built-in / resource names' if a == 'ARGS' else 'mw.%s' % a
+        rep.check(rule, fkey(cm, 'one name space for %s and %s' % (a if a != 'ARGS' else 'preprovided', b)), ok,
+                  '%s are in scope in the %s phase (make_middleware_chain) and are compared with mw.%s by the conflict check'
+                  % (what, dst, b) if ok else
+                  'make_middleware_chain makes %s available in the %s phase, but check_middlewares never compares them with mw.%s '
+                  '(separate provider maps: %s): a name offered through both is accepted, and the inner definition shadows the '
+                  'forwarded value -- two different objects under one name within one request'
+                  % (what, dst, b, '; '.join('%s <- %s' % (nm, sorted(srcs)) for nm, srcs in spaces)), cm.mod, cm.node)
+
+
+# ---------------------------------------------------------------------------------------------
+# R01.d: the generated caller and the generated callees agree on the names handed over
+# ---------------------------------------------------------------------------------------------
+
+def check_core_call_names(rep, rule):
+    """The request core (caller) and the two chains it calls (callees) are generated separately; what make_chain returns as
+    a chain's argument set *is* the signature of that chain's outermost level.  So: the keyword names of the generated
+    ``endpoint(...)`` / ``render(...)`` calls are one join over exactly the argument set handed in for that chain -- every
+    element, no filter, nothing added beside it (no literal keyword, no second collection) --, each element ``N=N``; and the
+    generated ``def`` takes exactly the elements of the set handed in for it.  (That the sets handed in are make_chain's
+    results for the endpoint / render chain is the call-site half: check_phase_sets, 'core call args'.)"""
+    repo = rep.repo
+    core = repo.mod(CORE)
+    fi = core.func('_create_request_inner')
+    ps = fi.params()
+    if len(ps) < 5:
+        raise AnalysisError('_create_request_inner: expected (endpoint chain, render chain, all args, endpoint args, render args)')
+    te = TemplateEval(repo, fi).run()
+    sinks = [k for k in te.sinks if k['name'] == 'compile_code']
+    if len(sinks) != 1:
+        raise AnalysisError('_create_request_inner: expected one compile_code call')
+    sink = sinks[0]
+    cc = sink['node']
+
+    def sink_arg(name, pos):
+        if name in sink['kw']:
+            return sink['kw'][name]
+        return sink['args'][pos] if len(sink['args']) > pos else None
+    code = sink_arg('code_str', 0)
+    if not isinstance(code, codegen.Tmpl):
+        raise AnalysisError('request-core template is not a string the evaluator can follow: %r' % (code,))
+    parts = code.parts
+    if any(isinstance(p, Sym) and p.kind == 'expr' for p in parts):
+        raise AnalysisError('request-core template has an opaque part: %r' % [p for p in parts if isinstance(p, Sym) and p.kind == 'expr'])
+    r = codegen.render(parts)
+    try:
+        tree = ast.parse(textwrap.dedent(r.text))
+    except SyntaxError as e:
+        raise AnalysisError('the request-core template does not produce valid Python: %s' % e)
+    fdefs = [s for s in tree.body if isinstance(s, ast.FunctionDef)]
+    if len(fdefs) != 1:
+        raise AnalysisError('the request-core template does not define exactly one function')
+    f = fdefs[0]
+    env = sink_arg('env', 2)
+    envmap = {}
+    if isinstance(env, codegen.SDict) and env.comp is None:
+        envmap = dict((k, v.text if isinstance(v, codegen.Ex) else None) for k, v in env.items.items())
+    names = {'endpoint': ([k for k, v in envmap.items() if v == ps[0]] + ['endpoint'])[0],
+             'render': ([k for k, v in envmap.items() if v == ps[1]] + ['render'])[0]}
+    joins = [s for s in codegen.flatten_syms(parts) if s.kind == 'join']
+
+    def join_of_hole(h):
+        """The join an element placeholder / a whole-join placeholder of the rendered text stands for."""
+        if isinstance(h, Sym) and h.kind == 'join':
+            return h
+        if isinstance(h, Elem):
+            own = [j for j in joins if isinstance(j.base[2], Elem) and j.base[2].key() == h.key() and j.elt is not None and
+                   any(p is h or (isinstance(p, Elem) and p.key() == h.key()) for p in j.elt)]
+            # (several joins over one collection are not told apart by the placeholder: the filtered one counts)
+            own.sort(key=lambda j: not j.filters)
+            return own[0] if own else None
+        return None
+
+    def whole(j, param):
+        """``j`` enumerates every element of the parameter ``param`` and nothing else."""
+        return j is not None and isinstance(j.iter, ast.Name) and j.iter.id == param and not j.filters
+
+    calls = [n for n in ast.walk(f) if isinstance(n, ast.Call)]
+    for nm, pi in (('endpoint', 3), ('render', 4)):
+        cls = [c for c in calls if norm(c.func) == names[nm]]
+        if len(cls) != 1:
+            raise AnalysisError('request core: expected exactly one %s(...) call in the generated function' % nm)
+        cl = cls[0]
+        bad = []
+        if cl.args:
+            bad.append('positional arguments')
+        srcs = set()
+        for k in cl.keywords:
+            h = r.holes.get(k.arg) if k.arg else None
+            j = join_of_hole(h)
+            if k.arg is None:
+                bad.append('a ** argument')
+            elif h is None:
+                bad.append('the keyword %s written into the template (passed whatever the chain takes)' % k.arg)
+            elif not (isinstance(k.value, ast.Name) and k.value.id == k.arg):
+                bad.append('a keyword whose value is not the local of the same name')
+            elif j is None:
+                bad.append('a keyword the evaluator cannot attribute to a collection')
+            else:
+                srcs.add(id(j))
+                if not whole(j, ps[pi]):
+                    bad.append('names drawn from %s%s' % (norm(j.iter), ' filtered by %s' % ', '.join(fl[2] if fl[0] == 'other' else
+                                                                                                     '%s %s' % (fl[0], fl[2]) for fl in j.filters)
+                                                          if j.filters else ''))
+        if not cl.keywords:
+            bad.append('no keywords')
+        if len(srcs) > 1:
+            bad.append('more than one collection')
+        ok = not bad
+        rep.check(rule, fkey(fi, '%s call passes exactly its chain args' % nm), ok,
+                  'the generated %s(...) call passes NAME=NAME for every element of %s and nothing else: the names the caller hands over '
+                  'are the signature make_chain derived for that chain' % (nm, ps[pi]) if ok else
+                  'the generated %s(...) call does not pass exactly the argument set of its chain (%s): %s -- the chain\'s outermost level '
+                  'is defined with exactly the names make_chain returned, so a name passed beside them is an unexpected keyword at request '
+                  'time and a name left out a missing argument, after binding succeeded' % (nm, ps[pi], '; '.join(sorted(set(bad)))),
+                  core, cc)
+    # the def line
+    a = f.args
+    bad = []
+    if a.vararg or a.kwarg or a.defaults or a.kwonlyargs or a.posonlyargs:
+        bad.append('defaults / * / ** parameters')
+    for x in a.args:
+        j = join_of_hole(r.holes.get(x.arg))
+        if j is None:
+            bad.append('the parameter %s written into the template' % x.arg if x.arg not in r.holes else 'a parameter of unknown origin')
+        elif not whole(j, ps[2]):
+            bad.append('names drawn from %s%s' % (norm(j.iter), ' (filtered)' if j.filters else ''))
+    if not a.args:
+        bad.append('no parameters')
+    ok = not bad
+    rep.check(rule, fkey(fi, 'def takes exactly the core args'), ok,
+              'the generated def takes exactly the elements of %s' % ps[2] if ok else
+              'the generated def does not take exactly the elements of %s: %s' % (ps[2], '; '.join(sorted(set(bad)))), core, cc)
 
 
 # ---------------------------------------------------------------------------------------------
